@@ -9,13 +9,12 @@ Transcribes how `DefaultProtocolWriter` (src/serializer/default_protocol_writer.
   * `write_type_and_value`: `if self.ok { r = write_u8(first); while size > 0 && r.is_ok() { r =
     write_u8(next) }; eval_result(r) }` — `write_u8` is byteorder's `write_all(&[b])`;
   * `write_boolean` / `None` arm of `write_option_string`: `if self.ok { eval_result(write_u8(b)) }`;
-  * `write_str`: `if self.ok { write_type_and_value(..); r = self.writer.write(value[0..len]);
-    if Err → ok = false }` — ONE `write` call whose returned count is ignored, issued even when the
-    header just failed, and also for an empty payload;
+  * `write_str`: `if self.ok { write_type_and_value(..); eval_result(self.writer.write_all(value)) }`
+    — the payload goes through `write_all` (issued even when the header just failed);
   * `close`: `if self.ok { eval_result(self.writer.flush()) }`;
-  * `std::io::Write::write_all` on a one byte buffer: `Ok(0)` is `Err(WriteZero)`, `Ok(n≥1)` is
-    success, `Err(e)` is failure (`ErrorKind::Interrupted` is not modelled: the harness sink
-    never produces it).
+  * `std::io::Write::write_all`: `while !buf.is_empty() { match write(buf) { Ok(0) => return
+    Err(WriteZero), Ok(n) => buf = &buf[n..], Err(e) => return Err(e) } }` — no call at all for an
+    empty buffer (`ErrorKind::Interrupted` is not modelled: the harness sink never produces it).
 
 The sink is a parameter: `resp i len` answers the `i`-th `write` call (0-based, counted over the
 whole run) asked to take `len` bytes.  `acc k` accepts `min k len` bytes.
@@ -62,6 +61,17 @@ def writeByte (k : Sink) (b : Nat) (w : WState) : Bool × WState :=
   | (some _, w) => (true, w)
   | (none, w) => (false, w)
 
+/-- `write_all(buf)`; `true` = `Ok(())`.  Every round takes at least one byte or fails, so
+    `fuel = buf.length` rounds suffice (the `0` case with a non-empty buffer is never reached) -/
+def writeAll (k : Sink) : Nat → List Nat → WState → Bool × WState
+  | _, [], w => (true, w)
+  | 0, _ :: _, w => (false, w)
+  | fuel + 1, b :: r, w =>
+    match sinkWrite k (b :: r) w with
+    | (some 0, w) => (false, { w with sawErr := true })
+    | (some n, w) => writeAll k fuel ((b :: r).drop n) w
+    | (none, w) => (false, w)
+
 /-- single-byte writes in sequence until the first failure; `true` = all succeeded -/
 def writeBytes (k : Sink) : List Nat → WState → Bool × WState
   | [], w => (true, w)
@@ -78,35 +88,25 @@ def runTv (k : Sink) (bytes : List Nat) (w : WState) : WState :=
     | (false, w) => { w with ok := false }
   else w
 
-inductive SinkOutcome where
-  | done (w : WState)
-  /-- the `value[0..len]` slice of `write_str` panicked; `w` is the state at that point -/
-  | panic (w : WState)
-  deriving Repr
-
-def Op.run (k : Sink) : Op → WState → SinkOutcome
-  | .tv tid v size, w => .done (runTv k (tvBytes tid v size) w)
-  | .byte b, w => .done (runTv k [b] w)
+/-- one primitive protocol call -/
+def Op.run (k : Sink) : Op → WState → WState
+  | .tv tid v size, w => runTv k (tvBytes tid v size) w
+  | .byte b, w => runTv k [b] w
   | .str s, w =>
     if w.ok then
       let w := runTv k (strHeader s) w
-      if strPanics s then .panic w
-      else
-        match sinkWrite k (s.take (strSliceLen s)) w with
-        | (some _, w) => .done w
-        | (none, w) => .done { w with ok := false }
-    else .done w
+      match writeAll k s.length s w with
+      | (true, w) => w
+      | (false, w) => { w with ok := false }
+    else w
   | .flush, w =>
     if w.ok then
-      if k.flushFails then .done { w with ok := false, sawErr := true } else .done w
-    else .done w
+      if k.flushFails then { w with ok := false, sawErr := true } else w
+    else w
 
-def runOps (k : Sink) : List Op → WState → SinkOutcome
-  | [], w => .done w
-  | op :: r, w =>
-    match op.run k w with
-    | .done w => runOps k r w
-    | .panic w => .panic w
+def runOps (k : Sink) : List Op → WState → WState
+  | [], w => w
+  | op :: r, w => runOps k r (op.run k w)
 
 /-- the sink of a `Vec<u8>` -/
 def idealSink : Sink := ⟨fun _ len => .acc len, false⟩
@@ -119,6 +119,6 @@ def scriptSink (script : List (Nat × Resp)) (flushFails : Bool) : Sink :=
     | none => .acc len, flushFails⟩
 
 /-- `FsmWriter::write(fsm); close()` against a sink -/
-def writeFsmTo (k : Sink) (f : Fsm) : SinkOutcome := runOps k (opsFsm f ++ [Op.flush]) WState.init
+def writeFsmTo (k : Sink) (f : Fsm) : WState := runOps k (opsFsm f ++ [Op.flush]) WState.init
 
 end Rfsm.Codec
